@@ -33,6 +33,8 @@ def reset():
     del _NODES[:]
     UF.clear()
     _NARROW.clear()
+    _LZ.clear()
+    _SLC.clear()
 
 
 def nnodes():
@@ -100,6 +102,13 @@ def cat_segs(sl):
     for s in sl:
         if s[0] != 'c' and s[2]:
             b = node(s[0])
+            if b.k == 'add' and s[1] > 0:
+                # all summands are multiples of 2^j: the sum shifted right by j is the sum of the shifted summands
+                j = min(low_zeros(b), s[1])
+                if j > 0:
+                    m = _shift_add(b, j)
+                    sl2.extend(segs(slc(m, s[1] - j, s[2])))
+                    continue
             if b.k == 'add' and s[1] + s[2] < b.w:
                 # a slice of a modular sum only depends on the low bits of the summands
                 m = narrow_add(b, s[1] + s[2])
@@ -187,11 +196,23 @@ def _slice_segs(sl, lo, ln):
     return out
 
 
+_SLC = {}
+
+
 def slc(n, lo, ln):
     "bits [lo, lo+ln) of n"
     assert ln > 0 and lo >= 0 and lo + ln <= n.w, (lo, ln, n.w)
     if lo == 0 and ln == n.w:
         return n
+    key = (n.id, lo, ln)
+    r = _SLC.get(key)
+    if r is None:
+        r = _slc(n, lo, ln)
+        _SLC[key] = r
+    return r
+
+
+def _slc(n, lo, ln):
     if n.k == 'sext':
         b = node(n.a[0])
         if lo + ln <= b.w:
@@ -216,7 +237,7 @@ def _add_norm(w, terms, c):
         if n.k == 'const':
             cc[0] = (cc[0] + n.a * k) & M
             return
-        if n.k == 'add' and n.w == w:
+        if n.k == 'add' and n.w == w and len(n.a[0]) <= FLATTEN_MAX:
             for i, kk in n.a[0]:
                 put(node(i), kk * k)
             cc[0] = (cc[0] + n.a[1] * k) & M
@@ -227,8 +248,13 @@ def _add_norm(w, terms, c):
     ts = tuple(sorted((i, k) for i, k in acc.items() if k))
     if not ts:
         return const(w, cc[0])
-    if len(ts) == 1 and ts[0][1] == 1 and cc[0] == 0:
-        return node(ts[0][0])
+    if len(ts) == 1 and cc[0] == 0:
+        k = ts[0][1]
+        if k == 1:
+            return node(ts[0][0])
+        if k & (k - 1) == 0:
+            j = k.bit_length() - 1          # a single term times 2^j is a shift: one representation only
+            return cat_segs([('c', 0, j)] + _slice_segs(segs(node(ts[0][0])), 0, w - j))
     return _mk('add', w, (ts, cc[0]))
 
 
@@ -239,7 +265,62 @@ def add(w, items, c=0):
     return _add_norm(w, items, c)
 
 
+FLATTEN_MAX = 1 << 30
 _NARROW = {}
+_LZ = {}
+
+
+def _tz(v, w):
+    return w if v == 0 else min(w, (v & -v).bit_length() - 1)
+
+
+def low_zeros(n):
+    "number of low bits of n that are syntactically zero"
+    r = _LZ.get(n.id)
+    if r is not None:
+        return r
+    if n.k == 'const':
+        r = _tz(n.a, n.w)
+    elif n.k == 'cat':
+        r = 0
+        for sg in n.a:
+            if sg[0] == 'c':
+                t = _tz(sg[1], sg[2])
+                r += t
+                if t < sg[2]:
+                    break
+            else:
+                b = node(sg[0])
+                if sg[1] == 0:
+                    r += min(low_zeros(b), sg[2])
+                break
+    elif n.k == 'add':
+        r = _tz(n.a[1], n.w)
+        for i, c in n.a[0]:
+            r = min(r, low_zeros(node(i)) + _tz(c, n.w))
+        r = min(r, n.w)
+    else:
+        r = 0
+    _LZ[n.id] = r
+    return r
+
+
+def _shift_add(n, j):
+    "n >> j for an add node all of whose summands are multiples of 2^j (exact), width n.w - j"
+    w = n.w - j
+    items = []
+    for i, c in n.a[0]:
+        t = node(i)
+        a = min(_tz(c, n.w), j)
+        rr = j - a
+        c2 = c >> a
+        if rr >= t.w:
+            continue
+        tt = slc(t, rr, t.w - rr) if rr else t
+        tt = zext(tt, w) if tt.w < w else (slc(tt, 0, w) if tt.w > w else tt)
+        items.append((tt, c2))
+    return _add_norm(w, items, n.a[1] >> j)
+
 
 
 def narrow_add(n, k):
